@@ -184,6 +184,16 @@ def run_exec(spec):
         ph1 = procsched.run_phase(body, spec["n1"], spec.get("prefix1", []), exec_dir, watch, kill=kill)
         out["p1"] = ph1.pack()
         victims = ph1.killed_at["victims"] if ph1.killed_at else []
+        cc_victim = ph1.killed_at.get("compiler_of") if ph1.killed_at else None
+        if cc_victim is not None:
+            # the loader whose compiler was killed may fail with an exception (the build did fail), but it must
+            # not die from a signal and must not return wrong values
+            st = ph1.status.get(cc_victim)
+            if st and st[0] == "signal":
+                fails.append(("process-failed", "phase 1: process %d died from signal %d after its compiler was killed" % (cc_victim, st[1])))
+            elif st and st[0] == "exit" and st[1] == 0 and ph1.results.get(cc_victim) != ref["values"]:
+                fails.append(("wrong-values", "phase 1: process %d returned %r after its compiler was killed" % (cc_victim, ph1.results.get(cc_victim))))
+            victims = list(victims) + [cc_victim]
         if kill and not ph1.killed_at:
             out["kill_not_reached"] = True
         _judge_phase(ph1, ref, range(spec["n1"]), "phase 1", fails, victims)
@@ -318,6 +328,11 @@ def explore(ctx):
                 _explore_tree(ctx, report,
                               lambda p, k=k, n2=n2, model=model: {"model": model, "n1": 1, "prefix1": [], "kill": ["all", k], "n2": n2, "prefix2": p},
                               b2, "kill:%s:k%d:rec%d" % (model, k, n2), phase_key="p2", prefix_key="prefix2")
+        # the compiler alone is killed (after no, partial or full output); then one fresh loader
+        for k in range(1, npoints):
+            _explore_tree(ctx, report,
+                          lambda p, k=k, model=model: {"model": model, "n1": 1, "prefix1": [], "kill": [0, k, "cc"], "n2": 1, "prefix2": p},
+                          0, "killcc:%s:k%d" % (model, k), phase_key="p2", prefix_key="prefix2")
         # a victim killed while a second loader runs concurrently, followed by one fresh loader
         kb = 0 if quick else 2
         STATE["stop"] = len(report.fails) >= STOP_AFTER
